@@ -152,6 +152,7 @@ type Exec struct {
 	backFrom   *ssa.BasicBlock
 	tmCache    *tmInfo
 	ghostTypes map[string]types.Type
+	rawGhost   map[string]bool
 }
 
 func (e *Exec) note(format string, a ...interface{}) {
